@@ -138,7 +138,7 @@ func (g *gen) wild() bool          { return !g.p.Supported && g.r.Chance(g.p.Wil
 func (g *gen) chance(p int) bool   { return g.r.Chance(p) }
 func pick[T any](g *gen, xs []T) T { return xs[g.r.Intn(len(xs))] }
 
-var pkgNames = []string{"gen.a.v1", "gen.b.v1", "gen.a.v1.sub", "gen.c.v2"}
+var pkgNames = []string{"gen.a.v1", "gen.b.v1", "gen.a.v1.sub", "gen.c.v2", "gen.b.v1.topic", "gen.c.v2.service", "gen.d.v1.sandbox"}
 var msgNames = []string{"Foo", "Bar", "Baz", "Qux", "FooKeys", "FooState", "FooData", "FooEvent", "Foo_Bar", "Thing", "Wrapper", "Node", "Tree", "Item", "Bar_Kind"}
 var nestedNames = []string{"Bar", "Inner", "Kind", "Part", "Keys", "Leaf"}
 var enumNames = []string{"Kind", "Status", "Color", "Bar_Kind", "Mode"}
@@ -742,8 +742,20 @@ func (g *gen) annotateMap(f, val *descriptorpb.FieldDescriptorProto) {
 		if g.wild() {
 			fc = g.validateFor(val, true) // not a map constraint at all
 		}
+		if g.wild() {
+			fc = &validate.FieldConstraints{Type: &validate.FieldConstraints_Repeated{Repeated: &validate.RepeatedRules{MinItems: proto.Uint64(1)}}}
+			if g.chance(50) {
+				fc.GetRepeated().Items = g.validateFor(val, false)
+			}
+			g.tag("validate-repeated-on-map")
+		}
 		if g.chance(20) {
 			fc.Required = proto.Bool(g.chance(70))
+		}
+		if g.chance(10) || (fc.GetRepeated() != nil && g.chance(50)) {
+			ig := validate.Ignore(g.r.Range(0, 3))
+			fc.Ignore = &ig
+			g.tag(fmt.Sprintf("validate-ignore-%d", int32(ig)))
 		}
 		proto.SetExtension(ensureOpts(f), validate.E_Field, fc)
 		g.tag("validate-map")
@@ -790,14 +802,35 @@ func (g *gen) annotate(f, typed *descriptorpb.FieldDescriptorProto, repeated boo
 			fc = &validate.FieldConstraints{Type: &validate.FieldConstraints_Repeated{Repeated: rr}}
 			g.tag("validate-repeated")
 		}
+		if !repeated && g.wild() {
+			// a container rule on a singular field, with or without items / values
+			switch g.r.Intn(4) {
+			case 0:
+				fc = &validate.FieldConstraints{Type: &validate.FieldConstraints_Repeated{Repeated: &validate.RepeatedRules{MinItems: proto.Uint64(1)}}}
+			case 1:
+				fc = &validate.FieldConstraints{Type: &validate.FieldConstraints_Repeated{Repeated: &validate.RepeatedRules{Items: fc}}}
+			case 2:
+				fc = &validate.FieldConstraints{Type: &validate.FieldConstraints_Map{Map: &validate.MapRules{MinPairs: proto.Uint64(1)}}}
+			case 3:
+				fc = &validate.FieldConstraints{Type: &validate.FieldConstraints_Map{Map: &validate.MapRules{Values: fc, Keys: &validate.FieldConstraints{}}}}
+			}
+			g.tag("validate-container-on-singular")
+		}
 		if g.chance(25) {
 			fc.Required = proto.Bool(g.chance(75))
 			g.tag("validate-required")
 		}
-		if g.chance(8) {
+		if g.chance(8) || (fc.GetRepeated() != nil && g.chance(35)) {
 			ig := validate.Ignore(g.r.Range(0, 3))
 			fc.Ignore = &ig
-			g.tag("validate-ignore")
+			g.tag(fmt.Sprintf("validate-ignore-%d", int32(ig)))
+			if fc.GetRepeated() != nil {
+				if fc.GetRepeated().Items == nil {
+					g.tag("validate-ignore-on-repeated-without-items")
+				} else {
+					g.tag("validate-ignore-on-repeated-with-items")
+				}
+			}
 		}
 		proto.SetExtension(ensureOpts(f), validate.E_Field, fc)
 	}
